@@ -7,6 +7,9 @@ require (
 	golang.org/x/tools v0.29.0
 )
 
-require github.com/golang/snappy v0.0.4 // indirect
+require (
+	github.com/anishathalye/porcupine v1.3.0
+	github.com/golang/snappy v0.0.4 // indirect
+)
 
 replace github.com/syndtr/goleveldb => /repo
